@@ -73,7 +73,7 @@ def theorem_domain(rep, model, modules):
                 a = model.ask('printdecls', [d])
                 if a.startswith('ok '):
                     out.append(d)
-                    rep.bump('theorem_domain_functions_inside')
+                    rep.bump('theorem_domain_functions_inside' + ('_pair_return' if d[3][0] == 'r2' else ''))
                 elif a == 'outside':
                     rep.bump('theorem_domain_functions_outside')
                 else:
